@@ -117,7 +117,11 @@ def Out.seen : Out → Seen
   | .errA | .errN => .err
   | .dieA | .dieN => .dead
 
-abbrev LockVal := Option Note     -- `none`: the empty value `PullLogList` creates
+/-- a value of the lock store: `none` is the empty value `PullLogList` creates; otherwise the signed
+note together with a serial number standing for the randomness of the signatures (ML-DSA signing
+is randomised and cosignatures are timestamped: signing the same checkpoint twice does not give
+the same bytes, which the byte-comparing compare-and-swap notices) -/
+abbrev LockVal := Option (Note × Nat)
 
 inductive Effect where
   | lockFetch (inst : Nat) (out : Out)
@@ -226,23 +230,29 @@ def Env.reencoded (e : Env) : Bytes :=
 
 /-- what the two cosigners demand of the text they sign (`formatCosignatureV1`, `formatSubtreeV1`,
 `subtreeCosignedMessage`): it parses, re-serialises to itself, has no extension lines, and the
-origin is 1..255 bytes -/
-def signable (text : Bytes) : Bool :=
-  match parseCheckpoint text with
-  | some p => formatCheckpoint p == text && p.ext == [] && decide (1 ≤ p.origin.length ∧ p.origin.length ≤ 255)
+origin is 1..255 bytes. (The length test is stated on the origin being formatted; it is the origin
+of the parse whenever the parse succeeds, `Checkpoint.parse_format`.) -/
+def signable (c : Checkpoint) : Bool :=
+  decide (1 ≤ c.origin.length ∧ c.origin.length ≤ 255) &&
+  match parseCheckpoint (formatCheckpoint c) with
+  | some p => formatCheckpoint p == formatCheckpoint c && p.ext == []
   | none => false
+
+/-- the checkpoint the witness re-encodes: `Checkpoint{Origin: origin, Tree: tlog.Tree{N: newSize, Hash: newHash}}` -/
+def Env.reCkpt (e : Env) : Option Checkpoint :=
+  e.ckpt.map fun c => { origin := c.origin, n := c.n, hash := c.hash, ext := [] }
 
 /-- `note.Sign(&note.Note{Text: …, Sigs: submitted.Sigs}, w.s1, w.s2)`: the verified log signatures
 (minus any that carry a cosigner's name and key hash), then the two cosignatures -/
 def Env.signed (e : Env) : Option Note :=
-  match e.opened with
-  | .ok sigs =>
-    let text := e.reencoded
-    if signable text then
+  match e.opened, e.reCkpt with
+  | .ok sigs, some c =>
+    let text := formatCheckpoint c
+    if signable c then
       let kept := sigs.filter fun s => !(e.cfg.k1.matches s || e.cfg.k2.matches s)
       some { text := text, sigs := kept ++ [e.cfg.k1.sign text, e.cfg.k2.sign text] }
     else none
-  | .error _ => none
+  | _, _ => none
 
 /-- `splitSignatures(signed, w.s1.Verifier().Name())` -/
 def ownLines (cfg : Cfg) (n : Note) : List SigLine := n.sigs.filter fun s => s.name == cfg.k1.name
@@ -253,7 +263,7 @@ variable (node : Hash → Hash → Hash) (emptyHash : Hash)
 /-- `openCheckpoint(origin, lock, note.VerifierList(w.s1.Verifier(), w.s2.Verifier()))` -/
 def openStored (cfg : Cfg) (origin : Bytes) : LockVal → Option (Nat × Hash)
   | none => some (0, emptyHash)
-  | some note =>
+  | some (note, _) =>
     match noteOpen [cfg.k1.verifier, cfg.k2.verifier] note with
     | .error _ => none
     | .ok _ =>
@@ -364,15 +374,16 @@ def execReplace (e : Env) (st : OState) : OState × Verdict :=
   | some v, some s =>
     let canApply := decide (v = st.lock)
     let applied := canApply && e.replaceOut.applied
+    let stamp := st.signedMsgs.length
     let st1 : OState :=
       { st with
         log := st.log ++ [.lockReplace e.inst s applied e.replaceOut]
         signedMsgs := st.signedMsgs ++ [(e.cfg.k1.key, s.text), (e.cfg.k2.key, s.text)]
-        lock := if applied then some s else st.lock
+        lock := if applied then some (s, stamp) else st.lock
         hist := if applied then st.hist ++ [(e.newSize, e.newHash)] else st.hist }
     let seen := if canApply then e.replaceOut.seen else (if e.replaceOut.seen = .dead then .dead else .err)
     match seen with
-    | .ok => (st1.setCache e.inst (some (some s)), .pass)
+    | .ok => (st1.setCache e.inst (some (some (s, stamp))), .pass)
     | .err => (st1.setCache e.inst none, .fail)
     | .dead => (st1, .dead)
   | _, _ => (st, .fail)
@@ -419,7 +430,7 @@ def runGuards : List Step → Env → OState → OState × Option Resp
     | (st', .dead) => (st', some .dead)
 
 def run (steps : List Step) (e : Env) (st : OState) : OState × Resp :=
-  match runGuards steps e st with
+  match runGuards node emptyHash steps e st with
   | (st', none) => finish e st'
   | (st', some r) => (st', r)
 
@@ -436,6 +447,40 @@ def firstFail : List Step → Env → OState → Option Resp
 
 /-- one add-checkpoint request, start to finish -/
 def addCheckpoint (e : Env) (st : OState) : OState × Resp := run node emptyHash program e st
+
+end
+
+/-! ## what the property is stated with -/
+
+section
+variable (node : Hash → Hash → Hash) (emptyHash : Hash)
+
+/-- the leaf-hash list `B` opens the tree head `c = (size, root)` -/
+def Opens (c : Nat × Hash) (B : List Hash) : Prop := B.length = c.1 ∧ Merkle.mth node emptyHash B = c.2
+
+/-- `b` extends `a`: every tree that opens `b` has, as its first `a.1` leaves, a tree that opens `a` -/
+def Consistent (a b : Nat × Hash) : Prop := a.1 ≤ b.1 ∧ ∀ B, Opens node emptyHash b B → Opens node emptyHash a (B.take a.1)
+
+/-- the tree head a signed note stands for (text only; `openStored` also demands the witness' own signature) -/
+def ckOfNote (origin : Bytes) (note : Note) : Option (Nat × Hash) :=
+  match parseCheckpoint note.text with
+  | none => none
+  | some c => if c.origin ≠ origin then none else some (c.n.toNat, c.hash)
+
+/-- the tree head a stored value stands for -/
+def ckOf (origin : Bytes) : LockVal → Option (Nat × Hash)
+  | none => some (0, emptyHash)
+  | some (note, _) => ckOfNote origin note
+
+/-- every state the per-origin machine can reach: any number of witness instances on the same
+stores, any requests addressed to this origin (well formed or not, any proof, any signatures), any
+outcome of every store operation (including the death of the process before or after it takes
+effect), restarts of any instance at any time -/
+inductive Reachable (cfg : Cfg) (o : Bytes) : OState → Prop
+  | init : Reachable cfg o (OState.init emptyHash)
+  | add (e : Env) (st : OState) : Reachable cfg o st → e.cfg = cfg → e.origin = o →
+      Reachable cfg o (addCheckpoint node emptyHash e st).1
+  | restart (i : Nat) (st : OState) : Reachable cfg o st → Reachable cfg o (st.restart i)
 
 end
 
